@@ -657,6 +657,7 @@ var _ = io.EOF
 type scriptOpts struct {
 	maxArr, maxItems int
 	allowStall       bool
+	credHeavy        bool // C09: most requests carry credentials; every rejected credential is a look-alike of the last accepted one
 }
 
 func genCommonCfg(r *rand.Rand) sCfg {
@@ -727,7 +728,7 @@ func genScript(r *rand.Rand, common sCfg, saConfigured bool, o scriptOpts) (sCfg
 				q.bc = []int32{-1, -2147483648, 1 << 20}[r.Intn(3)]
 			}
 			q.async = r.Intn(20) == 0
-			if r.Intn(3) == 0 {
+			if r.Intn(3) == 0 || (o.credHeavy && r.Intn(2) == 0) {
 				q.cred = 1
 				if r.Intn(4) != 0 {
 					q.auth = fmt.Sprintf("ok:%d", 10000+r.Intn(90000))
@@ -741,7 +742,7 @@ func genScript(r *rand.Rand, common sCfg, saConfigured bool, o scriptOpts) (sCfg
 				it.beh = genBeh(r, it.payload)
 				q.items = append(q.items, it)
 			}
-			if q.cred != 0 && !strings.HasPrefix(q.auth, "ok:") && r.Intn(2) == 0 {
+			if q.cred != 0 && !strings.HasPrefix(q.auth, "ok:") && (o.credHeavy || r.Intn(2) == 0) {
 				for i := len(arrs) - 1; i >= 0; i-- {
 					if arrs[i].kind == 'R' && arrs[i].req.cred != 0 && strings.HasPrefix(arrs[i].req.auth, "ok:") {
 						q.collideK, q.collideRes = i+1, "ok"+strings.TrimPrefix(arrs[i].req.auth, "ok:")
